@@ -799,6 +799,12 @@ def _state_digest(run, tree):
     return (R.snap_tree(tree, run.order), sum(len(r.calls) for r in {id(r): r for r in run.objs["recs"]}.values()), np.random.get_state()[1].tobytes(), _random.getstate())
 
 
+def _ancestors(did):
+    """ids of the proper ancestors of a deme id ('root', '0', '0/1', ...) below the root"""
+    parts = did.split("/")
+    return ["/".join(parts[:k]) for k in range(1, len(parts))]
+
+
 def c20_boundary(state):
     def on_boundary(run, tree):
         mx = run.spec["maximize"]
@@ -883,6 +889,11 @@ def c20_boundary(state):
         if got_ids != exp:
             viol.append(V("C20/tree-lines", f"boundary {snap['metaepoch']}: tree() shows demes {got_ids}, expected root + every deme that has run: {exp}"))
         must = {d["id"] for d in snap["demes"] if d["id"] == "root" or d["metaepochs"] >= 1}
+        # "has run" as the tracer saw it (a completed run_metaepoch call), independent of the deme's own counter
+        ran = {e[1] for e in run.ev if e[0] == "RUN_END"}
+        missing = sorted(i for i in ran if i not in set(got_ids) and i in demes and all(a in ran or a == "root" for a in _ancestors(i)))
+        if missing:
+            viol.append(V("C20/ran-but-no-line", f"boundary {snap['metaepoch']}: demes {missing} have run a metaepoch (and so have their ancestors) but tree() has no line for them"))
         if set(got_ids) != must:
             viol.append(V("C20/tree-lines", f"boundary {snap['metaepoch']}: displayed {sorted(got_ids)} but the demes that have run are {sorted(must)}"))
         for x in shown:
